@@ -71,6 +71,24 @@ def step (line : String) : String :=
     match parseMsg h q an ns ar with
     | some m => withTable tbl fun I => match pack I m with | some b => "ok " ++ showBytes b | none => "err"
     | none => "bad-op"
+  | ["chain", tbl, h] =>            -- decode, re-encode, decode again: the model predicts all three
+    match hexOr h with
+    | some b => withTable tbl fun I =>
+        match unpack I b with
+        | none => "err"
+        | some m =>
+          "ok " ++ showMsg m ++ " | " ++
+          (match pack I m with
+           | none => "err"
+           | some p => "ok " ++ showBytes p ++ " | " ++ (match unpack I p with | some m2 => "ok " ++ showMsg m2 | none => "err"))
+    | none => "bad-op"
+  | ["rt", tbl, h, q, an, ns, ar] => -- encode a constructed message and decode the model's own bytes
+    match parseMsg h q an ns ar with
+    | some m => withTable tbl fun I =>
+        match pack I m with
+        | none => "err"
+        | some p => "ok " ++ showBytes p ++ " | " ++ (match unpack I p with | some m2 => "ok " ++ showMsg m2 | none => "err")
+    | none => "bad-op"
   | ["name", tbl, h, off] =>
     match hexOr h, off.toNat? with
     | some b, some o => withTable tbl fun I =>
